@@ -543,6 +543,16 @@ def run(rep, tier, seed):
         for px in (p3, p4):
             trees += [("list", [px]), ("neg", ("+", px, one)), ("*", ("+", px, one), one), ("call", ("name", FN), [("*", ("+", px, one), one)]), ("filter", ("list", [px]), ("-", px, one)),
                       ("if", ("=", ("*", ("+", px, one), one), one), px, ("list", [px, px]))]
+    # targeted family: `and` / `or` / `between` INSIDE a delimited construct (context literal, list, call arguments, filter,
+    # function body in a list) that is a bound of a `between` - the word `and` is the separator of the bounds only at the nesting
+    # depth of its `between`; every kind of bracket counts (the random matrix meets these triples only by chance of the seed)
+    nA_, nB_, nC_ = ("name", NAMES[0]), ("name", NAMES[1]), ("name", NAMES[2])
+    inners = [("and", nB_, nC_), ("or", nB_, nC_), ("between", nA_, one, ("num", "2", 'Numeric("2", "")')), ("and", ("=", nB_, one), ("<", nC_, one))]
+    for inner_ in inners:
+        delims = [("context", [("k", inner_)]), ("context", [("k", one), ("m", inner_)]), ("list", [inner_]), ("list", [one, inner_]), ("call", ("name", FN), [inner_, one]),
+                  ("callnamed", ("name", FN), [("p", inner_)]), ("filter", ("list", [one]), inner_), ("path", ("context", [("k", inner_)]), "k"), ("list", [("function", ["p"], inner_)])]
+        for dl in delims:
+            trees += [("between", nA_, dl, one), ("between", nA_, one, dl), ("between", dl, one, nA_), ("and", ("between", nA_, dl, one), nB_), ("list", [("between", nA_, dl, dl)])]
     # targeted family: an iteration variable / formal parameter spelled like a BOUND name, and that name next to an
     # operator right after the construct has ended (the token boundaries there depend on which names are in scope again)
     A, B, C = NAMES[0], NAMES[1], NAMES[2]
